@@ -966,6 +966,13 @@ class ServerSSM(SSM):
             self.response(abort)
             return
 
+        # a new segmented request starts with its first segment, anything
+        # else is a leftover of a transaction that no longer exists
+        if apdu.apduSeq != 0:
+            abort = self.abort(AbortReason.invalidApduInThisState)
+            self.response(abort)
+            return
+
         # save the request and set the segmentation context
         self.set_segmentation_context(apdu)
 
